@@ -87,6 +87,23 @@ fn exec_dispatch(ctx: &mut Ctx, ev: &Ev) {
     with_ty!(ev.is_static(), ev.n, T => exec::<T>(ctx, ev))
 }
 
+/// Node count against the oracle only (volume sweeps); a mismatch is re-run through the full executor.
+fn exec_light(ctx: &mut Ctx, ev: &Ev) {
+    let n = ev.n;
+    let models: Vec<Model> = ev.tabs.iter().map(|t| Model::from_blocks(n, t)).collect();
+    let want = bdd_count(&models);
+    let got = with_ty!(ev.is_static(), n, T => {
+        let real: Vec<T> = ev.tabs.iter().map(|t| T::t_from_blocks(n, t)).collect();
+        guard(|| T::t_bdd_complexity(&real))
+    });
+    let ok = matches!(got, Outcome::Returned(g) if g == want);
+    ctx.event_digest(&format!("len={}|edge-perturbation-sweep|{}|n={}", models.len(), ev.ty, n), ev.digest(), want > 0, || ev.clone());
+    ctx.checked("node-count", 1);
+    if !ok {
+        exec_dispatch(ctx, ev);
+    }
+}
+
 fn both(ctx: &mut Ctx, n: usize, fam: &str, tabs: &[Vec<u64>]) {
     for ty in ["Lut", "LutN"] {
         if ty == "LutN" && n > tbl::MAX_STATIC {
@@ -164,6 +181,31 @@ fn main() {
                 ctx.exhaustive.insert(format!("all pairs of functions, n={}", n), true);
             }
         }
+        // systematic small perturbations at word edges: the list [f ^ e_a, f ^ e_b ^ e_c] for every single a and
+        // every pair {b, c} of edge positions (bits 0, 1, 30..33, 62, 63 of every 64-bit word), n = 7 (8 in
+        // thorough): two functions that differ in at most three outputs share almost all of their sub-tables
+        if (n == 7 || (n == 8 && thorough)) && c == 0 {
+            let edges: Vec<usize> = (0..gen::words(n)).flat_map(|w| [0usize, 1, 30, 31, 32, 33, 62, 63].into_iter().map(move |b| w * 64 + b)).collect();
+            for base_kind in 0..2 {
+                let base = if base_kind == 0 { vec![0u64; gen::words(n)] } else { gen::random_blocks(n, &mut rng) };
+                for a in &edges {
+                    for (bi, b) in edges.iter().enumerate() {
+                        for c2 in edges.iter().skip(bi + 1) {
+                            let mut f1 = base.clone();
+                            f1[a / 64] ^= 1u64 << (a % 64);
+                            let mut f2 = base.clone();
+                            f2[b / 64] ^= 1u64 << (b % 64);
+                            f2[c2 / 64] ^= 1u64 << (c2 % 64);
+                            for ty in ["Lut", "LutN"] {
+                                let ev = Ev::new("bdd", ty, n).st("edge-perturbation-sweep").tab(&f1).tab(&f2);
+                                exec_light(ctx, &ev);
+                            }
+                        }
+                    }
+                }
+            }
+            ctx.exhaustive.insert(format!("all [f^e_a, f^e_b^e_c] over word-edge positions, n={}", n), true);
+        }
         let total = (if thorough { 640 } else { 24 }) * if n >= 11 { 1 } else { 2 };
         let reps = std::cmp::max(1, total / chunks);
         for _rep in 0..reps {
@@ -182,6 +224,26 @@ fn main() {
                 let len = rng.range(1, 4);
                 let tabs: Vec<Vec<u64>> = (0..len).map(|_| gen::shannon_blocks(n, &mut rng, Some((&pool, level)))).collect();
                 both(ctx, n, &format!("shannon-level-{}", level), &tabs);
+            }
+            // near-identical functions: one base with 1..3 output bits toggled, the toggled positions chosen at
+            // the edges of 64-bit words (bit 0, 63, 31, 32, 30, 33 of random words) or at random
+            {
+                let base = gen::any_fam(n, &mut rng).1;
+                let size = 1usize << n;
+                let len = rng.range(2, 4);
+                let tabs: Vec<Vec<u64>> = (0..len)
+                    .map(|_| {
+                        let mut t = base.clone();
+                        for _ in 0..rng.range(1, 3) {
+                            let word = rng.below(gen::words(n));
+                            let bit = *rng.pick(&[0usize, 63, 31, 32, 30, 33, 62, 1]);
+                            let pos = if rng.chance(1, 4) { rng.below(size) } else { (word * 64 + bit) % size };
+                            t[pos / 64] ^= 1u64 << (pos % 64);
+                        }
+                        t
+                    })
+                    .collect();
+                both(ctx, n, "boundary-bit-neighbours", &tabs);
             }
             // literals and complemented literals of every variable, alone and next to other functions
             for i in 0..n {
